@@ -15,6 +15,7 @@ RULE = ('explicit-state BFS per past-time formula: one transition = one real upd
         'invariant on every transition: update() value == reference rho at the last sample == rtamt offline evaluate(); '
         'non-trivial transition: the top operator mattered (reference output differs from every operand and is not +-inf); '
         'in a third of the shards the (name, value) pairs of every second update() are listed in reverse order; '
+        'structured-sample layer: the variables presented as fields m.x / m.inner.x of one variable whose samples are objects; '
         'interface-aware layer: the same BFS under the four non-standard semantics with input/output declarations, over strict and non-strict predicates and a value alphabet that hits every threshold exactly (oracle: rho with the predicate rule of C06, and offline evaluate() under the same semantics); '
         'co-resident layer: two live monitors (same text, or one containing the other) stepped in every interleaving, with reset() of the second as an event - '
         'each update() must still equal the reference on that monitor\'s own samples')
@@ -329,6 +330,8 @@ def shards(tier):
     out += [{'formulas': [F.to_json(f) for f in ln[i:i + 4]], 'longnames': True} for i in range(0, len(ln), 4)]
     its = int_set()
     out += [{'formulas': [F.to_json(f) for f in its[i:i + 6]], 'ints': True} for i in range(0, len(its), 6)]
+    ss = int_set()[::2] + [f for f in F.patterns() if F.past_only(f)][:8]
+    out += [{'formulas': [F.to_json(f) for f in ss[i:i + 6]], 'struct': ('flat', 'nested')[(i // 6) % 2]} for i in range(0, len(ss), 6)]
     ia = ia_set(tier)
     out += [{'formulas': [F.to_json(f) for f in ia[i:i + 6]], 'ia': i // 6} for i in range(0, len(ia), 6)]
     cs = coresident_set(tier)
@@ -482,6 +485,11 @@ def run_shard(shard, tier, res):
             model.exact = True
             extra = {'exact': True}
             p = dict(values=BIG_VALUES, maxdepth=5, max_transitions=400 if tier == 'quick' else 4000, validate='first')
+        if shard.get('struct'):
+            # the variables are fields (m.x / m.inner.x) of ONE variable whose samples are objects
+            model = DtOnlineModel(f, p['values'], build_kw={'struct': shard['struct']})
+            extra = {'struct': shard['struct']}
+            res.flags['searches_on_structured_samples'] += 1
         if 'ia' in shard:
             k = (shard['ia'] + res.formulas) % len(IA_CONFIGS)
             sem, io = IA_CONFIGS[k]
@@ -523,7 +531,8 @@ def check_case(case):
         m = IaOnlineModel(f, IA_VALUES, case['ia'][0], case['ia'][1])
     else:
         m = DtOnlineModel(f, (F.V3,), text=case['spec'], variables=case['vars'], pastify=case.get('pastify', False),
-                          delay=case.get('delay', 0), subspecs=case.get('subspecs', ()), consts=[tuple(c) for c in case.get('consts', ())])
+                          delay=case.get('delay', 0), subspecs=case.get('subspecs', ()), consts=[tuple(c) for c in case.get('consts', ())],
+                          build_kw={'struct': case['struct']} if case.get('struct') else None)
     m.exact = bool(case.get('exact'))
     m.alternate = bool(case.get('alternate'))
     obj = m.fresh()
